@@ -35,6 +35,8 @@ type pmCache map[*core.FuncInfo]core.Parents
 var pmCaches = map[*core.Program]pmCache{}
 
 func (c *Ctx) parents(fi *core.FuncInfo) core.Parents {
+	cacheMu.Lock()
+	defer cacheMu.Unlock()
 	pc := pmCaches[c.P]
 	if pc == nil {
 		pc = pmCache{}
